@@ -2,9 +2,11 @@
 # tools/seeded_matrix.sh [ids...]  -- apply every seeded/<ID>-m<k>/patch.diff to a scratch worktree of /repo HEAD and run the
 # quick tier of the owning check (VERIF_REPO); one line per seeded change:  <id> | killed/SURVIVED | sub-checks | seconds
 cd /verif || exit 2
-sel=("$@"); [ ${#sel[@]} -eq 0 ] && sel=($(ls seeded))
+sel=("$@"); [ ${#sel[@]} -eq 0 ] && sel=($(ls seeded | grep "^C"))
 for s in "${sel[@]}"; do
+  [ -d "/verif/seeded/$s" ] || continue
   pid=${s%%-*}
+  also=$(/venv/bin/python -c "import json; print(' '.join(json.load(open('/verif/seeded/CROSS.json')).get('$s', [])))")
   W=/tmp/sm-$$-$s
   git -C /repo worktree add -q --detach "$W" HEAD || exit 2
   if ! git -C "$W" apply "/verif/seeded/$s/patch.diff" 2>/dev/null; then echo "$s | PATCH-DOES-NOT-APPLY"; git -C /repo worktree remove --force "$W"; continue; fi
@@ -14,7 +16,16 @@ for s in "${sel[@]}"; do
   subs=$(echo "$out" | grep -a '^  subcheck=' | sed 's/^  subcheck=\([a-z_0-9A-Z]*\):.*/\1/' | sort -u | tr '\n' ',' )
   h=$(echo "$out" | grep -ac 'HARNESS-ERROR')
   title=$(/venv/bin/python -c "import json,sys; print(json.load(open('/verif/seeded/$s/meta.json'))['title'][:90])")
-  echo "$s | $([ $n -gt 0 ] && echo killed || echo SURVIVED)$([ $h -gt 0 ] && echo ' +HARNESS-ERROR') | ${subs%,} | $(( $(date +%s) - t0 ))s | $title"
+  by=$pid
+  if [ $n -eq 0 ]; then
+    for other in $also; do
+      out=$(VERIF_REPO="$W" VERIF_BUILD_DIR=/tmp/sm-build VERIF_JOBS=${VERIF_JOBS:-16} VERIF_SEED=${VERIF_SEED:-1} timeout -k 10 1800 ./check "$other" --tier quick --no-evidence 2>&1 | grep -av WARNING)
+      n=$(echo "$out" | grep -ac '^VIOLATION')
+      subs=$(echo "$out" | grep -a '^  subcheck=' | sed 's/^  subcheck=\([a-z_0-9A-Z]*\):.*/\1/' | sort -u | tr '\n' ',' )
+      [ $n -gt 0 ] && { by=$other; break; }
+    done
+  fi
+  echo "$s | $([ $n -gt 0 ] && echo "killed by $by" || echo SURVIVED)$([ $h -gt 0 ] && echo ' +HARNESS-ERROR') | ${subs%,} | $(( $(date +%s) - t0 ))s | $title"
   git -C /repo worktree remove --force "$W" >/dev/null 2>&1; rm -rf "$W"
 done
 rm -rf /tmp/sm-build
